@@ -141,6 +141,8 @@ def run(rep):
             return
         if case["stream"] == "c12":
             spec, corr = names.compare_case(case, variant, obs, model, check_types=False)
+            if case.get("no_model"):
+                corr = None   # several passes / packages: outside the Lean model's single registerAll; group comparison only
             cls = shadowed_by_local(case, obs)
             if cls:
                 # known class C12/helper-shadowed-by-local (F49): replayed here, kept out of the group comparison
@@ -190,6 +192,8 @@ def run(rep):
         if not base:
             continue
         bcase, bobs, _, bline = base[0]
+        if g[0] in "mnw" and bobs["class"] != "ok":
+            problems.append(("spec", "the default-named package of a constructed group is not accepted: %s %s" % (bobs["class"], bobs.get("stderr", "")[:200]), bcase, "-", bobs, bline))
         for case, obs, model, line in members:
             if case["rename"] == "default":
                 continue
